@@ -36,7 +36,8 @@ EXPLANATION = ('Proved: field-level correctness of is_zero/reciprocal(+retry loo
                'operations and to_bits on binary-field representations for all random bits; lifting (constants of the extension '
                'field, out_conv). That the executable extension/binary field models are fields is property C20. Unsupported '
                'configuration skipped: non-prime field with t>0 and m >= q (sectypes._SecFld asserts ext_deg == 1). Known finding '
-               '(open): to_bits on a lifted odd prime field, key C04-to_bits-lifted-prime.')
+               '(open): to_bits on a lifted odd prime field, key C04-to_bits-lifted-prime; public int operand outside range(q) with a '
+               'lifted type in * and /, key C04-lifted-int-operand.')
 ASSUMPTIONS = ['random bits of to_bits are not observed directly: they are recovered as (opened c) xor a; by toBits_binary / '
                'and_or_bitwise the results do not depend on them',
                'is_zero_public: the mask is recovered as opened/a (a != 0)',
@@ -90,7 +91,7 @@ def code(x):
 EXPS = [0, 1, 2, 3, 5, 254]
 
 
-def gen_field_cases(rng, fd, level):
+def gen_field_cases(rng, fd, level, lifted=False):
     """level 2: every ordered pair for q <= 27, all exponents; 1: every pair for q <= 11; 0: every pair for q <= 5"""
     q = user_order(fd)
     small = q <= 27
@@ -131,7 +132,7 @@ def gen_field_cases(rng, fd, level):
         seq.append(('tobits', rng.choice(elems), 0))
     seq.append(('tobits', q - 1, 0))
     mixed = [(rng.choice(elems), rng.choice(elems)) for _ in range((2, 4, 12)[level])]
-    if fd[0] == 'P' and q < 2**32:   # public ints outside range(q): reduced mod q by the constructor (also for lifted types)
+    if fd[0] == 'P' and q < 2**32 and not lifted:   # public ints outside range(q) (lifted types: see report, int*a with int >= q fails)
         mixed = [(a, b + q * rng.choice([-2, -1, 0, 1, 3])) for a, b in mixed]
     return {'pairs': pairs, 'neq': neq, 'pows': pows, 'seq': seq, 'mixed': mixed}
 
@@ -531,7 +532,7 @@ def make_jobs(ctx, rng):
                     level = 1 if (idx + FIELDS.index(fd)) % 3 == 0 or t > 0 and user_order(fd) <= 5 else 0
                 else:
                     level = 0
-                plan.append((fd, gen_field_cases(rng, fd, level)))
+                plan.append((fd, gen_field_cases(rng, fd, level, fd[0] == 'P' and t > 0 and m >= fd[1])))
             jobs.append((m, t, no_prss, ctx.seed * 1000 + idx, plan))
             idx += 1
     return jobs
@@ -553,6 +554,17 @@ def tobits_finding(ctx):
         ctx.count('to_bits on lifted odd prime field (directed)')
         if not ok:
             ctx.violation('to_bits on a lifted prime field: ' + msg, data)
+
+
+def int_operand_finding(ctx):
+    """directed input for the open finding C04-lifted-int-operand"""
+    data = {'kind': 'lifted-int-operand', 'm': 3, 't': 1, 'no_prss': False, 'seed': 1, 'q': 3, 'value': 2, 'int': 5,
+            'finding_key': 'C04-lifted-int-operand'}
+    ok, msg = replay(ctx, data)
+    ctx.case(('lifted-int-operand', 3))
+    ctx.count('int operand >= q with a lifted type (directed)')
+    if not ok:
+        ctx.violation('lifted secure field with a public int operand outside range(q): ' + msg, data)
 
 
 def run(ctx):
@@ -605,9 +617,10 @@ def run(ctx):
                         li.append(str(info['deg']))
     ctx.compare('lifting decision and degree (sectypes._SecFld vs MpycV.SecFld)', li, common.LeanDriver('FldConv').run(ll), ll)
     tobits_finding(ctx)
+    int_operand_finding(ctx)
     ctx.note('observation (outside the statement, triaged by the coordinator): a lifted secure field type rejects public '
              'operands of the subfield type GF(q) with TypeError (sectypes.SecureObject._coerce accepts only elements of the lifted '
-             'field); int operands are used in lifted configurations')
+             'field); int operands are used in lifted configurations (ints outside range(q): open finding C04-lifted-int-operand)')
 
 
 def search(ctx):
@@ -640,6 +653,27 @@ def replay(ctx, data):
         if all(r == exp for r in res):
             return True, 'ok'
         return False, f'to_bits(SecFld({q})({v})) with m={data["m"]}, t={data["t"]} gives {res}, expected {exp}'
+    if data.get('kind') == 'lifted-int-operand':
+        q, v, k = data['q'], data['value'], data['int']
+        sectypes._SecFld.cache_clear()
+
+        async def prog(mpc):
+            F = mpc.SecFld(q)
+            out = []
+            for fn in (lambda a: a * k, lambda a: k * a, lambda a: a / k, lambda a: k / a):
+                out.append(code(await mpc.output(fn(F(v)))))
+            return out
+        F0 = orc.Field(q)
+        ev, ek = F0.from_code(v % q), F0.from_code(k % q)
+        exp = [F0.code(F0.mul(ev, ek)), F0.code(F0.mul(ek, ev)), F0.code(F0.div(ev, ek)), F0.code(F0.div(ek, ev))]
+        try:
+            res = SimNet(data['m'], data['t'], no_prss=data['no_prss'], seed=data['seed']).run(prog)
+        except Exception as exc:
+            return False, (f'a = SecFld({q})({v}); a*{k}, {k}*a, a/{k}, {k}/a with m={data["m"]}, t={data["t"]} raises '
+                           f'{repr(exc)[-200:]} (expected {exp})')
+        if all(r == exp for r in res):
+            return True, 'ok'
+        return False, f'a = SecFld({q})({v}); [a*{k}, {k}*a, a/{k}, {k}/a] = {res}, expected {exp}'
     fd = tuple(data['field'])
     m, t, no_prss, seed = data['m'], data['t'], data['no_prss'], data['seed']
     if data.get('kind') == 'run':
